@@ -41,23 +41,30 @@ K1s == <<"k1", MVs("p-one")>>
 BothP == <<"both", MVs("from-posting")>>
 BothT == <<"both", MVs("from-txn")>>
 K2T == <<"k2", MVi(42)>>
+(* keys over the whole key syntax [a-z][a-zA-Z0-9\-_]+ : camel case, its lower-case twin (a DIFFERENT key that may sit in
+   the same dictionary), a twin of "both" that differs in one letter's case, a key with a dash, an underscore, a digit *)
+KCamel == <<"isinCode", MVs("US9229087690")>>
+KTwin == <<"isincode", MVs("lower-case-twin")>>
+BothCamelT == <<"bOth", MVs("camel-from-txn")>>
+BothCamelP == <<"bOth", MVs("camel-from-posting")>>
+KDash == <<"tax-Id_2", MVi(7)>>
 
 (* ---- the small alphabet of the exhaustive run: every directive kind, every structural option once ---- *)
 SmallAlpha == <<
-    Txn(D0, M0(1) \o <<BothT, K2T>>, "*", Some("Payee"), "Narr", Some(<<"t1", "t2">>), Some(<<"l1">>),
+    Txn(D0, M0(1) \o <<BothT, K2T, BothCamelT>>, "*", Some("Payee"), "Narr", Some(<<"t1", "t2">>), Some(<<"l1">>),
         << P(AcA, A(-10, 1, "USD"), NULL, NULL, NULL, Some(M0(2) \o <<K1s, BothP>>)),
            P(AcF, A(10, 1, "USD"), NULL, NULL, Some("!"), NULL) >>),
     Txn(D1, M0(3) \o <<K1s>>, "!", NULL, "", Some(<<>>), Some(<<>>),
         << P(AcA, A(2, 1, "HOOL"), Some(C(21, 4, "USD", Some(D0), Some("lot1"))), Some(A(6, 1, "USD")), NULL, Some(M0(4))),
-           P(AcA, A(-21, 2, "USD"), NULL, NULL, NULL, Some(M0(5) \o <<K2T>>)),
+           P(AcA, A(-21, 2, "USD"), NULL, NULL, NULL, Some(M0(5) \o <<K2T, KCamel, BothCamelP>>)),
            P(AcB, A(3, 2, "HOOL"), Some(C(5, 1, "USD", NULL, NULL)), NULL, NULL, NULL) >>),
     Txn(D2, M0(6), "*", Some(""), "Only", NULL, NULL,
         << P(AcB, A(-8, 1, "EUR"), NULL, Some(A(5, 4, "USD")), NULL, Some(M0(7) \o << <<"k2", MVnull>> >>)) >>),
-    Open(D0, M0(10) \o <<K1s, BothT>>, AcA, <<"USD">>, Some("FIFO")),
-    Open(D0, M0(11), AcB, <<>>, NULL),
+    Open(D0, M0(10) \o <<K1s, BothT, KCamel, KTwin>>, AcA, <<"USD">>, Some("FIFO")),
+    Open(D0, M0(11) \o <<BothCamelT>>, AcB, <<>>, NULL),
     Close(D2, M0(12) \o <<K1s>>, AcA),
-    Commodity(D0, M0(13) \o << <<"k1", MVa(3, 2, "USD")>>, K2T >>, "USD"),
-    Commodity(D1, M0(14), "HOOL"),
+    Commodity(D0, M0(13) \o << <<"k1", MVa(3, 2, "USD")>>, K2T, KCamel >>, "USD"),
+    Commodity(D1, M0(14) \o <<KTwin, BothCamelT>>, "HOOL"),
     Price(D1, M0(15), "HOOL", A(11, 2, "USD")),
     Balance(D1, M0(16), AcA, A(100, 1, "USD"), Some(<<1, 20>>), Some(A(-1, 2, "USD"))),
     Note(D1, M0(17), AcA, "a note", NULL, Some(<<"l1">>)),
@@ -71,21 +78,22 @@ SmallAlpha == <<
    a price, a balance, a note, a pad *)
 SmallAlpha10 == [n \in 1..10 |-> SmallAlpha[<<1, 2, 3, 4, 6, 7, 9, 10, 11, 14>>[n]]]
 
-SmallKeys == <<"filename", "lineno", "k1", "k2", "both", "nokey">>
+SmallKeys == <<"filename", "lineno", "k1", "k2", "both", "nokey", "isinCode", "isincode", "bOth">>
 
 (* ---- the generator alphabet ---- *)
 CostOpts == << NULL, Some(C(5, 1, "USD", NULL, NULL)), Some(C(21, 4, "USD", Some(D0), NULL)),
                Some(C(5, 1, "EUR", NULL, Some("lot1"))), Some(C(7, 2, "USD", Some(D1), Some("lot2"))) >>
 PriceOpts == << NULL, Some(A(6, 1, "USD")), Some(A(3, 2, "EUR")) >>
-PMetaOpts == << NULL, Some(M0(31)), Some(M0(32) \o <<K1s, BothP>>),
-                Some(M0(33) \o << <<"k2", MVnull>>, <<"kd", MVdate(D1)>>, <<"kx", MVd(-7, 4)>> >>) >>
+PMetaOpts == << NULL, Some(M0(31)), Some(M0(32) \o <<K1s, BothP, KCamel>>),
+                Some(M0(33) \o << <<"k2", MVnull>>, <<"kd", MVdate(D1)>>, <<"kx", MVd(-7, 4)>>, BothCamelP, KTwin >>) >>
 Pick(s, n) == s[(n % Len(s)) + 1]
 OddNums == <<3, 7, 9, 11, 13, 17, 19, 21, 23, 27, -3, -7, -9>>     \* coprime to 2 and 5: n / (1|2|4|5) is reduced
 
 (* 60 transactions: every combination of cost x price x posting-metadata option on the first posting *)
 FocusTxn(v) ==
     LET co == Pick(CostOpts, v) pr == Pick(PriceOpts, v \div 5) pm == Pick(PMetaOpts, v \div 15) IN
-    Txn(D0 + v, M0(100 + v) \o <<BothT, K2T>>, IF v % 2 = 0 THEN "*" ELSE "!", Some("Pay"), "Narr", Some(<<"t1">>), Some(<<>>),
+    Txn(D0 + v, M0(100 + v) \o <<BothT, K2T>> \o (IF v % 4 < 2 THEN <<BothCamelT>> ELSE <<KCamel, KDash>>),
+        IF v % 2 = 0 THEN "*" ELSE "!", Some("Pay"), "Narr", Some(<<"t1">>), Some(<<>>),
         << P(AcA, A(Pick(OddNums, v), Pick(<<1, 2, 4, 5>>, v \div 3), "HOOL"), co, pr, IF v % 3 = 0 THEN Some("!") ELSE NULL, pm),
            P(AcF, A(-3, 1, "USD"), NULL, NULL, NULL, Some(M0(200 + v))) >>)
 PayeeOpts == << NULL, Some(""), Some("Pay") >>
@@ -112,15 +120,16 @@ ShapeTxns == <<
            P("Assets:Z", A(0, 1, "EUR"), NULL, NULL, NULL, NULL) >>),
     Txn(D0, M0(440), "*", NULL, "no postings", Some(<<>>), Some(<<>>), <<>>) >>
 OtherDirectives == <<
-    Open(D0, M0(500) \o <<K1s, BothT>>, AcA, <<"USD", "HOOL">>, Some("FIFO")),
-    Open(D0 + 1, M0(501), AcB, <<>>, NULL),
-    Open(D0 + 2, M0(502) \o << <<"kd", MVdate(D2)>>, <<"kx", MVd(5, 2)>>, <<"k2", MVnull>> >>, AcF, <<>>, Some("STRICT")),
+    Open(D0, M0(500) \o <<K1s, BothT, KCamel, KTwin, <<"tax-Id_2", MVb(1)>> >>, AcA, <<"USD", "HOOL">>, Some("FIFO")),
+    Open(D0 + 1, M0(501) \o <<BothCamelT>>, AcB, <<>>, NULL),
+    Open(D0 + 2, M0(502) \o << <<"kd", MVdate(D2)>>, <<"kx", MVd(5, 2)>>, <<"k2", MVnull>>, <<"isinCode", MVdate(D1)>> >>, AcF, <<>>, Some("STRICT")),
     Close(D2, M0(503) \o <<K1s>>, AcA),
     Close(D2 + 3, M0(504), AcB),
     Close(D2, M0(505), "Assets:Z"),
-    Commodity(D0, M0(506) \o << <<"k1", MVa(3, 2, "USD")>>, K2T, <<"kb", MVb(1)>>, <<"kd", MVdate(D0)>>, <<"kx", MVd(1, 8)>> >>, "USD"),
-    Commodity(D1, M0(507), "HOOL"),
-    Commodity(D1, M0(508) \o << <<"both", MVs("eur")>>, <<"k2", MVnull>> >>, "EUR"),
+    Commodity(D0, M0(506) \o << <<"k1", MVa(3, 2, "USD")>>, K2T, <<"kb", MVb(1)>>, <<"kd", MVdate(D0)>>, <<"kx", MVd(1, 8)>>,
+                               <<"isinCode", MVs("US0000000001")>>, <<"isincode", MVi(840)>> >>, "USD"),
+    Commodity(D1, M0(507) \o <<KCamel, KDash>>, "HOOL"),
+    Commodity(D1, M0(508) \o << <<"both", MVs("eur")>>, <<"k2", MVnull>>, <<"bOth", MVd(3, 8)>>, KTwin >>, "EUR"),
     Price(D1, M0(509), "HOOL", A(11, 2, "USD")),
     Price(D2, M0(510) \o <<K1s>>, "EUR", A(9, 8, "USD")),
     Balance(D1, M0(511), AcA, A(100, 1, "USD"), NULL, NULL),
@@ -144,5 +153,6 @@ QConn == {NoQual, Q(NULL, NULL, TRUE), Q(Some(D1), NULL, FALSE), Q(NULL, Some(D1
 ConnAlpha == [n \in 1..6 |-> SmallAlpha[<<1, 2, 4, 6, 7, 9>>[n]]]
 
 GenAlpha == [v \in 1..60 |-> FocusTxn(v - 1)] \o [v \in 1..18 |-> AttrTxn(v - 1)] \o ShapeTxns \o OtherDirectives
-GenKeys == <<"filename", "lineno", "k1", "k2", "both", "kd", "kx", "kb", "ka", "nokey">>
+GenKeys == <<"filename", "lineno", "k1", "k2", "both", "kd", "kx", "kb", "ka", "nokey",
+             "isinCode", "isincode", "bOth", "tax-Id_2", "ISINCODE">>
 =============================================================================
